@@ -251,6 +251,7 @@ var c04Probes = []struct {
 	{"arrow-flag-leak-into-arrow-expression-body", "({} != (() => [b] = 1)); b"},
 	{"arrow-flag-leak-into-class-body", "({} + class { [c] = d; static { e } }); c; d; e"},
 	{"shorthand-of-linked-variable", "var a; function f() { return {a} }"},
+	{"catch-parameter-default-vs-block-let", "try {} catch ({a = b}) { let b; b }"},
 	{"export-specifier-local-name", "var a; export { a }; a"},
 	{"function-declaration-in-block-hoists", "function o() { { function f() {} } return f }"},
 	{"arrow-bare-parameter-uses", "var a; a => a"},
@@ -298,6 +299,7 @@ func c04Probe(t *fw.T) {
 		"arrow-flag-leak-into-arrow-expression-body": "({} != (() => { return [b] = 1 })); b",
 		"arrow-flag-leak-into-class-body":            "({} + class { [c] = d; static { e } }); c; d; e",
 		"shorthand-of-linked-variable":               "var v1_; function v2_() { return {a: v1_} }",
+		"catch-parameter-default-vs-block-let":       "try {} catch ({a: v1_ = b}) { let v2_; v2_ }",
 		"export-specifier-local-name":                "var v1_; export { v1_ as a }; v1_",
 		"function-declaration-in-block-hoists":       "function v1_() { { function v2_() {} } return v2_ }",
 		"arrow-bare-parameter-uses":                  "var v1_; (v2_) => { return v2_ }",
